@@ -62,6 +62,28 @@ func main() {
 	write := func(name string, data []byte) {
 		must(os.WriteFile(filepath.Join(dir, name), data, 0o644))
 	}
+	if len(os.Args) > 2 && os.Args[2] == "only-c" {
+		// key C: protected, primary key plus a signing subkey (key_id may name either)
+		c, err := openpgp.NewEntity("Verif Harness C", "subkey test key", "c@verif.invalid", cfg)
+		must(err)
+		must(c.AddSigningSubkey(cfg))
+		write("pgp_c.pub.asc", serializePub(c, true))
+		write("pgp_c.pub.gpg", serializePub(c, false))
+		write("pgp_c.keyid", []byte(fmt.Sprintf("%016x", c.PrimaryKey.KeyId)))
+		for _, sk := range c.Subkeys {
+			if sk.Sig != nil && sk.Sig.FlagsValid && sk.Sig.FlagSign {
+				write("pgp_c.subkeyid", []byte(fmt.Sprintf("%016x", sk.PublicKey.KeyId)))
+			}
+		}
+		must(c.PrivateKey.Encrypt([]byte(Pass)))
+		for _, sk := range c.Subkeys {
+			must(sk.PrivateKey.Encrypt([]byte(Pass)))
+		}
+		write("pgp_c.asc", serializePriv(c, true))
+		write("pgp_c.gpg", serializePriv(c, false))
+		fmt.Println("key C written to", dir)
+		return
+	}
 	// PGP key A: unprotected
 	a, err := openpgp.NewEntity("Verif Harness A", "test key", "a@verif.invalid", cfg)
 	must(err)
